@@ -4,6 +4,11 @@ A Thermodynamics object is built from a zoo potential (Z2x2, Cubic1; closed-form
   direct   Thermodynamics + FreeEnergy.tracePhase on generated ranges / dT / rTol / paranoid, setExtrapolate
   manager  the public WallGoManager sequence registerModel + setupThermodynamicsHydrodynamics
            (zoo_potentials.setup_manager) with generated phaseTracerTol / temperature scale
+  history  a call history on ONE Thermodynamics object: direct trace + setExtrapolate, p/dp/ddp/e/w/c_s^2
+           requested inside and outside the ranges, optionally two parameters of the potential changed in
+           place (parameter scan re-using the object), both phases traced AGAIN with other generated
+           ranges / dT / rTol / paranoid, setExtrapolate; all sub-oracles apply to the final state (the
+           property speaks about the reported values whatever happened before)
 and evaluated at generated temperatures from 0.2 TMin to 5 TMax of each phase's tabulated range
 (TMin/TMax = min/maxPossibleTemperature[0]) and at TMin(1 +- 10^[-9,-2]), TMax likewise.
 
@@ -38,7 +43,8 @@ ENGINE = "hypothesis @given over zoo potentials; harness finite differences with
 RULE = (
     "Generated: family (Z2x2, Cubic1) and couplings, nucleation temperature, construction mode (direct "
     "tracePhase with ranges inside / crossing ends of phases, dT, rTol, paranoid; or WallGoManager set-up "
-    "with phaseTracerTol and temperature scale), 16 generated temperatures per case (below, inside, above "
+    "with phaseTracerTol and temperature scale; or a re-trace history on one object with evaluations in "
+    "between and optionally parameters changed in place), 16 generated temperatures per case (below, inside, above "
     "each phase's range; TMin/TMax*(1 +- 10^[-9,-2])) plus a fixed log grid 0.2 TMin .. 5 TMax. "
     "Non-trivial = at least one evaluated temperature outside the tabulated range of its phase or within "
     "1e-2 (relative) of its end; distinct by canonical JSON of the case (model, construction, temperatures)."
@@ -109,21 +115,9 @@ def st_temps(draw, n=16):
 
 
 @st.composite
-def st_case(draw):
-    fam = draw(st.sampled_from(["Z2x2", "Cubic1"]))
-    spec = dict(draw(zp.st_z2x2() if fam == "Z2x2" else zp.st_cubic1(delta_range=(0.05, 0.9))))
-    spec["units"] = 1.0
-    if draw(st.sampled_from([False, False, False, True])):
-        spec["Tn_int"] = True   # an integer nucleation temperature, as a user would type it (Tn=100)
-    mode = draw(st.sampled_from(["direct", "direct", "manager"]))
-    case = {"spec": spec, "mode": mode, "temps": draw(st_temps()),
-            "cont": [_r(draw(st.floats(2.0, 9.0)), 3) for _ in range(4)]}
-    cf = zp.closed(spec)
-    Tn = zp.nucleation_temperature(spec)
-    if mode == "manager":
-        case["tol"] = draw(st.sampled_from([1e-5, 1e-6, 1e-6, 1e-7]))
-        case["tscale_factor"] = draw(st.sampled_from([0.5, 1.0, 1.0, 2.0]))
-        return case
+def st_trace_plan(draw, cf, Tn, keep_start_inside=False):
+    """Ranges / dT / rTol / paranoid of one direct tracing of both phases started at Tn."""
+    plan = {}
     rTol = draw(st.sampled_from([1e-4, 1e-6, 1e-8]))
     dT_rel = 10.0 ** draw(st.floats(-2.7, -1.3))
     exh, exl = zp.existence_ext(cf, "high"), zp.existence_ext(cf, "low")
@@ -146,8 +140,40 @@ def st_case(draw):
     wL = min(TmaxL, exl["hi"]) - TminL
     dT_rel = min(dT_rel, min(wH, wL) / Tn / 8.0)
     dT_rel = max(dT_rel, width / Tn / 300.0)
-    case.update({"rTol": rTol, "dT": _r(dT_rel * Tn, 6), "paranoid": draw(st.booleans()),
+    if keep_start_inside:
+        side = min(Tn - max(TminH, exh["lo"]), TmaxH - Tn, Tn - TminL, min(TmaxL, exl["hi"]) - Tn)
+        dT_rel = min(dT_rel, max(side, 0.0) / Tn / 3.5)
+        dT_rel = max(dT_rel, width / Tn / 600.0)
+    plan.update({"rTol": rTol, "dT": _r(dT_rel * Tn, 6), "paranoid": draw(st.booleans()),
                  "ranges": {"high": [_r(TminH, 12), _r(TmaxH, 12)], "low": [_r(TminL, 12), _r(TmaxL, 12)]}})
+    return plan
+
+
+@st.composite
+def st_case(draw):
+    fam = draw(st.sampled_from(["Z2x2", "Cubic1"]))
+    spec = dict(draw(zp.st_z2x2() if fam == "Z2x2" else zp.st_cubic1(delta_range=(0.05, 0.9))))
+    spec["units"] = 1.0
+    if draw(st.sampled_from([False, False, False, True])):
+        spec["Tn_int"] = True   # an integer nucleation temperature, as a user would type it (Tn=100)
+    mode = draw(st.sampled_from(["direct", "direct", "manager", "history"]))
+    case = {"spec": spec, "mode": mode, "temps": draw(st_temps()),
+            "cont": [_r(draw(st.floats(2.0, 9.0)), 3) for _ in range(4)]}
+    cf = zp.closed(spec)
+    Tn = zp.nucleation_temperature(spec)
+    if mode == "manager":
+        case["tol"] = draw(st.sampled_from([1e-5, 1e-6, 1e-6, 1e-7]))
+        case["tscale_factor"] = draw(st.sampled_from([0.5, 1.0, 1.0, 2.0]))
+        return case
+    case.update(draw(st_trace_plan(cf, Tn, keep_start_inside=(mode == "history"))))
+    if mode == "history":
+        # the SAME Thermodynamics object is traced a second time (other ranges / dT / rTol), optionally after
+        # a parameter of the potential was changed in place; derivatives are requested in between
+        case["second"] = draw(st_trace_plan(cf, Tn))
+        if draw(st.sampled_from([True, True, False])):
+            keys = ["ch", "cs"] if fam == "Z2x2" else ["g", "A"]
+            case["mutate"] = {k: _r(1.0 + draw(st.floats(-0.02, 0.02)), 5) for k in keys}
+        case["between"] = [_r(draw(st.floats(0.0, 1.0)), 4) for _ in range(3)]
     return case
 
 
@@ -286,7 +312,55 @@ def build(case, v):
         th.setExtrapolate()
     except (OverflowError, ZeroDivisionError, FloatingPointError, ValueError) as exc:
         err = exc
-    return th, cf, V, case["rTol"], case["dT"], Tn, err
+    if case["mode"] != "history" or err is not None:
+        return th, cf, V, case["rTol"], case["dT"], Tn, err
+    # ---- call history on ONE object: derivatives requested, then new tables installed -----------------
+    try:
+        for name in ("HighT", "LowT"):
+            lo, hi = float(getattr(th, "TMin" + name)), float(getattr(th, "TMax" + name))
+            for u in case["between"]:
+                T = lo + u * (hi - lo)
+                for fn in ("p", "dp", "ddp", "e", "w", "csq"):
+                    float(getattr(th, fn + name)(T))
+            float(getattr(th, "dp" + name)(0.5 * lo))
+            float(getattr(th, "ddp" + name)(2.0 * hi))
+    except (OverflowError, ZeroDivisionError, FloatingPointError, ValueError):
+        pass   # only possible after a C11 hop; judged on the final object below
+    if case.get("mutate"):
+        p2 = dict(spec["p"])
+        for k, f in case["mutate"].items():
+            p2[k] = p2[k] * f
+        cf2 = zp.closed(dict(spec, p=p2))
+        ok = cf2.Tc is not None
+        for which in ("high", "low"):
+            ex2 = zp.existence_ext(cf2, which) if ok else None
+            ok = ok and ex2 is not None and ex2["lo"] * 1.01 < Tn < ex2["hi"] * 0.99 and cf2.exists(which, Tn)
+        if ok:
+            # in place: the WallGo potential object keeps evaluating through this very closed-form object
+            cf.__dict__.update(cf2.__dict__)
+            v.label("history:parameters-changed-in-place")
+        else:
+            v.label("history:mutation-dropped")
+    sec = case["second"]
+    for fe in (th.freeEnergyHigh, th.freeEnergyLow):
+        if not fe.minPossibleTemperature[0] < Tn < fe.maxPossibleTemperature[0]:
+            # tracePhase clamps a new request to [minPossible, maxPossible] of the previous table (table end
+            # -+ 2 dT); a start temperature outside that window is not a usable history (WallGo then builds a
+            # non-monotone table and CubicSpline raises ValueError - reported as an observation, not asserted here)
+            v.label("history:start-outside-previous-window")
+            return th, cf, V, case["rTol"], case["dT"], Tn, err
+    try:
+        for which, fe in (("high", th.freeEnergyHigh), ("low", th.freeEnergyLow)):
+            a, b = sec["ranges"][which]
+            fe.tracePhase(a, b, sec["dT"], rTol=sec["rTol"], paranoid=sec["paranoid"])
+    except (AssertionError, RuntimeError) as exc:
+        v.label("outcome:retrace:" + type(exc).__name__)
+        return None
+    try:
+        th.setExtrapolate()
+    except (OverflowError, ZeroDivisionError, FloatingPointError, ValueError) as exc:
+        err = exc
+    return th, cf, V, sec["rTol"], sec["dT"], Tn, err
 
 
 # ---------------------------------------------------------------------------
